@@ -62,6 +62,10 @@ func ValueOf(value any) Value { //nolint: gocyclo
 		}
 		return ValueOf(rv.Elem().Interface())
 	case reflect.String:
+		if _, ok := value.(string); !ok {
+			// a named string type (type T string): the methods of stringValue assert string
+			value = reflect.ValueOf(value).String()
+		}
 		return stringValue{wrapperValue{value}}
 	case reflect.Array, reflect.Slice:
 		return arrayValue{wrapperValue{value}}
